@@ -38,7 +38,16 @@ type impTarget struct {
 	elem               string   // name of a type treated as an ABSTRACT element type F with operations mul / one / inv (field level)
 	abstract           []string // package-local functions called as ABSTRACT parameters (hash arguments dropped); their source text is
 	// emitted as `abstractSrc` so that an edit of them breaks the proofs that pin it
+	grp    string     // name of a point type treated as an ABSTRACT group element type G with operations add / dbl / neg / zero (imp_grp.go)
+	inf    string     // name of the package-level variable holding the point at infinity (read as `zero`)
+	digest bool       // the MiMC digest state machine (imp_digest.go): struct over the abstract element type, field primitives / codecs as parameters
+	guards []impGuard // accepted alternative layout: exported function = panic guard around an unexported body
 }
+
+// impGuard: when the file declares `inner`, the function `name` must have EXACTLY the text `text` (a wrapper that calls
+// `inner` with its own arguments and turns a panic into the result false: panics are not modelled, so the wrapper is the
+// identity on every run the translation speaks about) and `inner` is translated under the name `name`. Anything else: exit.
+type impGuard struct{ name, inner, text string }
 
 var impTargets = []impTarget{
 	{dir: "fiat-shamir", file: "transcript.go", ns: "FiatShamir", out: "Imp/Transcript.lean",
@@ -47,8 +56,13 @@ var impTargets = []impTarget{
 	{dir: "ecc/bn254/fr", file: "element.go", ns: "Exp_bn254_fr", out: "Imp/Exp_bn254_fr.lean", funcs: []string{"Exp"}, elem: "Element"},
 	{dir: "field/hash", file: "hashutils.go", ns: "HashUtils", out: "Imp/ExpandMsgXmd.lean", funcs: []string{"min", "ExpandMsgXmd"}},
 	{dir: "accumulator/merkletree", file: "verify.go", ns: "MerkleVerify", out: "Imp/MerkleVerify.lean", funcs: []string{"VerifyProof"},
-		abstract: []string{"leafSum", "nodeSum", "sum"}},
+		abstract: []string{"leafSum", "nodeSum", "sum"},
+		guards:   []impGuard{{"VerifyProof", "verifyProof", "func VerifyProof(h hash.Hash, merkleRoot []byte, proofSet [][]byte, proofIndex uint64, numLeaves uint64) (ok bool) { defer func() { if r := recover(); r != nil { ok = false } }() return verifyProof(h, merkleRoot, proofSet, proofIndex, numLeaves) }"}}},
+	{dir: "ecc/bn254/fr/mimc", file: "mimc.go", ns: "Mimc_bn254", out: "Imp/Mimc_bn254.lean", funcs: digestFuncs, digest: true},
 }
+
+// methods of the MiMC digest (and the package-level Sum), in dependency order
+var digestFuncs = []string{"Reset", "checksum", "Sum", "Write", "SetState", "State", "WriteString", "pkgSum"}
 
 // ---------------------------------------------------------------------------------------------- types
 
@@ -74,7 +88,7 @@ func (t *ity) eq(u *ity) bool {
 	if t == nil || u == nil {
 		return t == u
 	}
-	if t.k != u.k || t.name != u.name {
+	if t.k != u.k || t.name != u.name || t.n != u.n {
 		return false
 	}
 	if t.elem != nil || u.elem != nil {
@@ -103,21 +117,33 @@ type impField struct {
 }
 
 type impPkg struct {
-	tg         impTarget
-	fset       *token.FileSet
-	structs    map[string][]impField
-	order      []string          // struct names in source order
-	errVars    map[string]string // sentinel name -> message
-	errOrd     []string
-	funcs      map[string]*ast.FuncDecl
-	absDecl    map[string]*ast.FuncDecl
-	absCalled  []string
-	translated map[string]*impSig // pure package-local functions translated so far (callable from later ones)
+	tg            impTarget
+	fset          *token.FileSet
+	structs       map[string][]impField
+	order         []string          // struct names in source order
+	errVars       map[string]string // sentinel name -> message
+	errOrd        []string
+	funcs         map[string]*ast.FuncDecl
+	methods       map[string]*ast.FuncDecl // "RecvType.Name" -> declaration (functions of the target file)
+	absDecl       map[string]*ast.FuncDecl
+	absCalled     []string
+	loopInfos     []impLoopInfo
+	grpTranslated map[string]*impSig // methods of the point type translated so far (receiver by value, result = new receiver)
+	translated    map[string]*impSig // pure package-local functions translated so far (callable from later ones)
+	file          *ast.File
+	digMethods    map[string]*impSig // digest mode: methods of the receiver struct translated so far (receiver passed and returned by value)
+}
+
+// helper defs of loops in generation order (inner loops first): what the all-packages-equal proofs need
+type impLoopInfo struct {
+	name, kind string // kind: "range" (structural recursion on the list) / "for" (fuel recursion)
+	ro, S      []string
 }
 
 type impSig struct {
-	params []*ity
-	result *ity
+	params  []*ity
+	result  *ity
+	results []*ity // methods: all results
 }
 
 var impAbsParams, impAbsArgs string // abstract function parameters carried by every def of the current target
@@ -166,7 +192,16 @@ func (p *impPkg) goType(e ast.Expr) *ity {
 		if p.tg.elem != "" && v.Name == p.tg.elem {
 			return &ity{k: "elem"}
 		}
+		if p.tg.grp != "" && v.Name == p.tg.grp {
+			return &ity{k: "grp"}
+		}
 	case *ast.SelectorExpr:
+		if id, ok := v.X.(*ast.Ident); ok && p.tg.digest && id.Name == "fr" && v.Sel.Name == "Element" {
+			return &ity{k: "elem"}
+		}
+		if id, ok := v.X.(*ast.Ident); ok && p.tg.digest && id.Name == "fr" && v.Sel.Name == "ByteOrder" {
+			return &ity{k: "abs", name: "BO"}
+		}
 		if id, ok := v.X.(*ast.Ident); ok && id.Name == "hash" && v.Sel.Name == "Hash" {
 			return tyHash
 		}
@@ -199,12 +234,18 @@ func (p *impPkg) goType(e ast.Expr) *ity {
 		if v.Len == nil {
 			return &ity{k: "slice", elem: p.goType(v.Elt)}
 		}
+		if n := litInt(v.Len); n != nil && p.tg.grp != "" && n.IsInt64() && n.Int64() > 0 && n.Int64() < 1024 {
+			// fixed-size array of group elements: a list of that length (a value; element writes are value updates)
+			if t := p.goType(v.Elt); t.k == "grp" {
+				return &ity{k: "array", n: int(n.Int64()), elem: t}
+			}
+		}
 	case *ast.MapType:
 		if k := p.goType(v.Key); k.k == "string" {
 			return &ity{k: "map", elem: p.goType(v.Value)}
 		}
 	case *ast.StarExpr:
-		if t := p.goType(v.X); t.k == "struct" || t.k == "elem" {
+		if t := p.goType(v.X); t.k == "struct" || t.k == "elem" || t.k == "grp" {
 			return &ity{k: "ptr", elem: t}
 		} else if t.k == "bigint" { // *big.Int is read as an exact integer VALUE (mutating methods only on fresh objects)
 			return t
@@ -225,10 +266,14 @@ func (p *impPkg) lty(t *ity, qual bool) string {
 		return "Nat"
 	case "nslice":
 		return "Option " + p.ltyA(t.elem, qual)
-	case "absfn":
+	case "absfn", "abs":
 		return t.name
 	case "elem":
 		return "F"
+	case "grp":
+		return "G"
+	case "array":
+		return "List " + p.ltyA(t.elem, qual)
 	case "bigint":
 		return "Int"
 	case "bool":
@@ -255,6 +300,9 @@ func (p *impPkg) lty(t *ity, qual bool) string {
 	case "ptr":
 		return "Option " + p.ltyA(t.elem, qual)
 	case "struct":
+		if p.tg.digest {
+			return t.name + " F BO"
+		}
 		if qual {
 			return p.tg.ns + "." + t.name
 		}
@@ -291,7 +339,27 @@ func (p *impPkg) zero(t *ity) string {
 	case "ptr":
 		return "none"
 	case "struct":
+		if p.tg.digest {
+			var parts []string
+			for _, fl := range p.structs[t.name] {
+				if fl.ty.k == "abs" {
+					die("imp: zero value of %s: the field %s has an abstract (interface) type", t.name, fl.name)
+				}
+				parts = append(parts, fl.name+" := "+p.zero(fl.ty))
+			}
+			return "{ " + strings.Join(parts, ", ") + " }"
+		}
 		return "{}"
+	case "grp":
+		return "uninit"
+	case "array":
+		return fmt.Sprintf("List.replicate %d %s", t.n, p.zero(t.elem))
+	case "bigint":
+		return "0"
+	case "elem":
+		if p.tg.digest {
+			return "fZero"
+		}
 	}
 	return "default"
 }
@@ -299,18 +367,19 @@ func (p *impPkg) zero(t *ity) string {
 // ---------------------------------------------------------------------------------------------- loading
 
 func loadImp(tg impTarget) *impPkg {
-	p := &impPkg{tg: tg, fset: token.NewFileSet(), structs: map[string][]impField{}, errVars: map[string]string{}, funcs: map[string]*ast.FuncDecl{}, absDecl: map[string]*ast.FuncDecl{}, translated: map[string]*impSig{}}
+	p := &impPkg{tg: tg, fset: token.NewFileSet(), structs: map[string][]impField{}, errVars: map[string]string{}, funcs: map[string]*ast.FuncDecl{}, methods: map[string]*ast.FuncDecl{}, absDecl: map[string]*ast.FuncDecl{}, translated: map[string]*impSig{}, grpTranslated: map[string]*impSig{}, digMethods: map[string]*impSig{}}
 	f, err := parser.ParseFile(p.fset, filepath.Join(repo, tg.dir, tg.file), nil, parser.ParseComments)
 	if err != nil {
 		die("imp: parse: %v", err)
 	}
+	p.file = f
 	// pass 1: struct names (so that field types can refer to structs declared later)
 	var specs []*ast.TypeSpec
 	for _, d := range f.Decls {
 		if gd, ok := d.(*ast.GenDecl); ok && gd.Tok == token.TYPE {
 			for _, s := range gd.Specs {
 				ts := s.(*ast.TypeSpec)
-				if _, ok := ts.Type.(*ast.StructType); ok {
+				if _, ok := ts.Type.(*ast.StructType); ok && tg.grp == "" {
 					p.structs[ts.Name.Name] = nil
 					p.order = append(p.order, ts.Name.Name)
 					specs = append(specs, ts)
@@ -350,8 +419,39 @@ func loadImp(tg impTarget) *impPkg {
 				}
 			}
 		case *ast.FuncDecl:
-			p.funcs[v.Name.Name] = v
+			if v.Recv != nil && len(v.Recv.List) == 1 {
+				p.methods[strings.TrimPrefix(exprText(v.Recv.List[0].Type), "*")+"."+v.Name.Name] = v
+			}
+			if tg.grp != "" && (v.Recv == nil || len(v.Recv.List) != 1 || exprText(v.Recv.List[0].Type) != "*"+tg.grp) {
+				continue // a point-type target: only the methods of that type are targets
+			}
+			if tg.digest && v.Recv == nil { // a method and a package-level function may share their name (Sum)
+				p.funcs["pkg"+v.Name.Name] = v
+			} else {
+				p.funcs[v.Name.Name] = v
+			}
 		}
+	}
+	for _, gd := range tg.guards {
+		in := p.funcs[gd.inner]
+		if in == nil {
+			continue
+		}
+		out := p.funcs[gd.name]
+		if out == nil {
+			die("imp: %s: %s without %s", tg.file, gd.inner, gd.name)
+		}
+		var buf bytes.Buffer
+		doc := out.Doc
+		out.Doc = nil
+		printer.Fprint(&buf, p.fset, out)
+		out.Doc = doc
+		if got := strings.Join(strings.Fields(buf.String()), " "); got != gd.text {
+			die("imp: %s: %s is not the accepted panic guard around %s:\n  %s", tg.file, gd.name, gd.inner, got)
+		}
+		in.Name = ast.NewIdent(gd.name)
+		p.funcs[gd.name] = in
+		delete(p.funcs, gd.inner)
 	}
 	// abstract package-local functions: found in any non-test file of the package
 	if len(tg.abstract) > 0 {
@@ -502,7 +602,7 @@ func (p *impPkg) translateFunc(name string) string {
 		params = append(params, "("+lname(f.recv)+" : "+p.lty(t, false)+")")
 	}
 	for _, fl := range fd.Type.Params.List {
-		if _, ok := fl.Type.(*ast.StarExpr); ok && p.goType(fl.Type).k != "bigint" {
+		if _, ok := fl.Type.(*ast.StarExpr); ok && p.goType(fl.Type).k != "bigint" && !(p.goType(fl.Type).k == "ptr" && p.goType(fl.Type).elem.k == "grp") {
 			p.die(fl, "pointer parameter (outside the subset: only the receiver is passed by reference)")
 		}
 		t0 := p.paramType(fl.Type)
@@ -537,7 +637,7 @@ func (p *impPkg) translateFunc(name string) string {
 			f.results = append(f.results, p.paramType(fl.Type))
 		}
 	}
-	if f.recv != "" && f.recvTy.k == "elem" && len(f.results) == 1 && f.results[0].k == "elem" {
+	if f.recv != "" && (f.recvTy.k == "elem" || f.recvTy.k == "grp") && len(f.results) == 1 && f.results[0].k == f.recvTy.k {
 		// `func (z *Element) M(…) *Element`: the methods of the element type return their receiver; the def returns the new value of z
 		f.retSelf = true
 		f.results = nil
@@ -560,6 +660,9 @@ func (p *impPkg) translateFunc(name string) string {
 		return c.ret("()")
 	}
 	f.push()
+	if p.tg.grp != "" {
+		f.checkRecvAlias()
+	}
 	body := f.seq(fd.Body.List, nil, c, "  ", nil, true)
 	if f.evRecv {
 		body = "  let " + lname(f.recv) + " : " + p.lty(f.recvTy, false) + " := []  -- calls of the callback, in order\n" + body
@@ -579,6 +682,41 @@ func (p *impPkg) translateFunc(name string) string {
 		}
 		p.translated[name] = sig
 	}
+	if f.retSelf && f.recvTy.k == "grp" && len(f.fuels) == 0 && !u.W && !u.H && !u.S && !u.B && !f.usesNumCPU {
+		sig := &impSig{result: f.recvTy}
+		for _, fl := range fd.Type.Params.List {
+			for range fl.Names {
+				sig.params = append(sig.params, p.paramType(fl.Type))
+			}
+		}
+		p.grpTranslated[name] = sig
+	}
+	if p.tg.digest && f.recv == "" {
+		digestArgNames[name] = ""
+		for _, fl := range fd.Type.Params.List {
+			for _, n := range fl.Names {
+				digestArgNames[name] += " " + lname(n.Name)
+			}
+		}
+	}
+	if p.tg.digest && f.recv != "" && !f.evRecv {
+		if len(f.fuels) != 0 || u.W || u.H || u.S || u.B || f.usesNumCPU {
+			p.die(fd, "digest method with fuel / hash parameters")
+		}
+		sig := &impSig{results: f.results}
+		digestArgNames[name] = " " + lname(f.recv)
+		for _, fl := range fd.Type.Params.List {
+			for _, n := range fl.Names {
+				digestArgNames[name] += " " + lname(n.Name)
+			}
+		}
+		for _, fl := range fd.Type.Params.List {
+			for range fl.Names {
+				sig.params = append(sig.params, p.paramType(fl.Type))
+			}
+		}
+		p.digMethods[name] = sig
+	}
 	var b strings.Builder
 	for _, h := range f.helpers {
 		b.WriteString(h + "\n")
@@ -588,13 +726,19 @@ func (p *impPkg) translateFunc(name string) string {
 	return b.String()
 }
 
+var famSigs = map[string]string{} // "<ns>.<fn>" -> Lean type of the translated method of a group-level target
+
 // impOnly restricts runImp to one sub-pass (the basename of the output file; all Exp_<pkg> files form the sub-pass "Exp")
 var impOnly string
 
 func impPassOf(out string) string {
+	// a family of per-package files <Fam>_<pkg>.lean + <Fam>All.lean is ONE sub-pass <Fam> (same rule in bin/check)
 	b := strings.TrimSuffix(filepath.Base(out), ".lean")
-	if strings.HasPrefix(b, "Exp_") || b == "ExpAll" {
-		return "Exp"
+	if i := strings.Index(b, "_"); i > 0 {
+		return b[:i]
+	}
+	if strings.HasSuffix(b, "All") && len(b) > 3 {
+		return b[:len(b)-3]
 	}
 	return b
 }
@@ -608,6 +752,9 @@ func impPasses() []string {
 			seen[p] = true
 			res = append(res, p)
 		}
+	}
+	for _, fam := range grpFamilies {
+		res = append(res, fam.name)
 	}
 	return res
 }
@@ -625,6 +772,12 @@ func runImp() {
 		}
 		targets = append(targets, impTarget{dir: d, file: "element.go", ns: "Exp_" + n, out: "Imp/Exp_" + n + ".lean", funcs: []string{"Exp"}, elem: "Element"})
 	}
+	targets = append(targets, digestTargets()...)
+	defer func() {
+		if impOnly == "" || impOnly == "Mimc" {
+			emitMimcAll()
+		}
+	}()
 	defer func() {
 		if impOnly != "" && impOnly != "Exp" {
 			return
@@ -653,13 +806,32 @@ func runImp() {
 		b.WriteString("]\n\ntheorem allExp_same : ∀ e ∈ allExp, @e.2 = @Exp_bn254_fr.Exp := by\n  intro e he\n  simp only [allExp, List.mem_cons, List.not_mem_nil, or_false] at he\n  rcases he with " + strings.TrimSuffix(strings.Repeat("rfl | ", len(expNames)), " | ") + " <;> first | rfl | (simp only []; first | " + strings.Join(sameNames(expNames), " | ") + ")\n\nend GV.Gen.Imp.ExpAll\n")
 		writeFile("Imp/ExpAll.lean", b.String())
 	}()
+	famInfos := map[string][]impLoopInfo{} // target ns -> loops
+	for _, fam := range grpFamilies {
+		fam := fam
+		targets = append(targets, fam.targets()...)
+		defer func() {
+			if impOnly != "" && impOnly != fam.name {
+				return
+			}
+			writeFile("Imp/"+fam.name+"All.lean", fam.allFile(famInfos))
+		}()
+	}
 	for _, tg := range targets {
 		if impOnly != "" && impPassOf(tg.out) != impOnly {
 			continue
 		}
 		impAbsParams, impAbsArgs = "", ""
+		impExtraReserved = nil
+		if tg.grp != "" {
+			impAbsParams, impAbsArgs = grpAbsParams, grpAbsArgs
+			impExtraReserved = grpReserved
+		}
 		if tg.elem != "" {
 			impAbsParams, impAbsArgs = " {F : Type} (mul : F → F → F) (one : F) (inv : F → F)", " mul one inv"
+		}
+		if tg.digest {
+			impAbsParams, impAbsArgs = digestAbsParams, digestAbsArgs
 		}
 		out := filepath.Join(outDir, tg.out)
 		dieHook = func() { os.Remove(out) } // a failed translation must not leave the previous run's file behind
@@ -667,15 +839,27 @@ func runImp() {
 		var b strings.Builder
 		fmt.Fprintf(&b, "/- GENERATED by tools/goslp (imp.go) from /repo/%s/%s on every run. DO NOT EDIT.\n", tg.dir, tg.file)
 		b.WriteString("   Statement-by-statement translation of imperative Go; the value vocabulary and its semantics: Model/GoImp.lean. -/\n")
-		b.WriteString("import GnarkVerif.Model.GoImp\n\nset_option linter.unusedVariables false\n\n")
+		if tg.grp != "" {
+			b.WriteString("import GnarkVerif.Model.GoImpGrp\n")
+		} else {
+			b.WriteString("import GnarkVerif.Model.GoImp\n")
+		}
+		if tg.digest {
+			b.WriteString(digestImports(tg))
+		}
+		b.WriteString("\nset_option linter.unusedVariables false\n\n")
 		fmt.Fprintf(&b, "namespace GV.Gen.Imp.%s\nopen GV.GoImp\n\n", tg.ns)
-		if tg.elem != "" { // a field package: only the targeted functions matter
+		if tg.elem != "" || tg.grp != "" { // a field / curve package: only the targeted functions matter
 			p.errOrd, p.order = nil, nil
 		}
 		for _, e := range p.errOrd {
 			fmt.Fprintf(&b, "/-- `var %s = errors.New(%s)` -/\n@[reducible] def %s : Err := Err.sentinel %q\n", e, strings.ReplaceAll(p.errVars[e], "-/", "- /"), e, e)
 		}
 		b.WriteString("\n")
+		if tg.digest {
+			b.WriteString(p.digestPrelude())
+			p.order = nil
+		}
 		for _, sn := range p.structOrder() {
 			fmt.Fprintf(&b, "structure %s where\n", sn)
 			for _, fl := range p.structs[sn] {
@@ -720,6 +904,16 @@ func runImp() {
 			b.WriteString(p.translateFunc(fn))
 		}
 		fmt.Fprintf(&b, "end GV.Gen.Imp.%s\n", tg.ns)
+		famInfos[tg.ns] = p.loopInfos
+		for _, fn := range tg.funcs {
+			if sig := p.grpTranslated[fn]; sig != nil && tg.grp != "" {
+				ty := "{G : Type} → (G → G → G) → (G → G) → (G → G) → G → G → G"
+				for _, t := range sig.params {
+					ty += " → " + p.ltyA(t, false)
+				}
+				famSigs[tg.ns+"."+fn] = ty + " → G"
+			}
+		}
 		writeFile(tg.out, b.String())
 		dieHook = nil
 	}
